@@ -29,7 +29,8 @@ THEOREMS = [
     "Nix.C12.name_still_available",
     "Nix.C12.rejected_name_available",
     "Nix.C12.auto_array_refused_unchanged",
-    "Nix.C12.multi_tag_refused_unchanged_partial",
+    "Nix.C12.auto_array_life_cycle",
+    "Nix.C12.multi_tag_refused_unchanged",
 ]
 ASSUMPTIONS = [
     "uuid4 ids are drawn from an abstract fresh supply; no link of the file is named like an id not yet drawn "
@@ -59,9 +60,9 @@ MANIFEST = {
     "level_note": "Trusted: Lean kernel; standard axioms; the correspondence harness and its fault table; h5py/HDF5 link "
                   "semantics modelled, not verified. Partial: dataset contents/extents are leaf nodes of the model, so "
                   "refused data-level calls (DataSet.append, dataset-writing setters, link-list extend) are checked by "
-                  "the oracle only; create_multi_tag with positions/extents given as data is modelled and compared, and "
-                  "proved unchanged-when-refused except on the paths that delete a successfully auto-created array "
-                  "again (delete_all; full statement kept as Nix.C12.MultiTagRefusedUnchanged, partial theorem proved). "
+                  "the oracle only. create_multi_tag with positions/extents given as data (auto-created arrays, roll-back "
+                  "through delete_all) has its own full theorem (multi_tag_refused_unchanged, under C03's invariant WF and "
+                  "the assumption that '<name>-positions' / '<name>-extents' are not ids of the supply). "
                   "name_still_available is proved for create_group/source/data_array/tag (not for multi tags).",
 }
 
